@@ -67,9 +67,16 @@ def main():
         d1 = sh([PY, str(demo)], wt, env, timeout=900)
         res["demo_patched_rc"] = d1.returncode
         res["demo_patched_tail"] = (d1.stdout + d1.stderr)[-600:]
+        xdist = 0
+        if "--xdist" in rest:
+            i = rest.index("--xdist")
+            xdist = int(rest[i + 1])
+            del rest[i:i + 2]
         tests = [] if (not rest or rest == ["--full"]) else rest
         junit = OUT / f"{tag}{pid}_{k}.junit.xml"
         cmd = [PY, "-m", "pytest", "-q", "-p", "no:cacheprovider", "--timeout=900", "--continue-on-collection-errors", f"--junitxml={junit}"] + tests
+        if xdist:
+            cmd += ["-n", str(xdist)]
         t0 = time.time()
         t = sh(cmd, wt, env, timeout=3 * 3600)
         res["pytest_rc"] = t.returncode
@@ -89,6 +96,25 @@ def main():
                         st = "skip"
                 if base.get(name) == "pass" and st == "fail":
                     reg.append(name)
+        if xdist and reg:
+            # tests distributed over workers lose the order some of them rely on (tests/test_scripts.py after tests/test_cli.py ...):
+            # every file with a regression is run again in ONE process, in the suite's own order, and judged by that run
+            res["xdist_regressions_rerun"] = list(reg)
+            files = sorted({"tests/" + "/".join(x.split("::")[0].split(".")[1:]) + ".py" for x in reg})
+            if "tests/test_scripts.py" in files and "tests/test_cli.py" not in files:
+                files = ["tests/test_cli.py"] + files
+            junit2 = OUT / f"{tag}{pid}_{k}.rerun.junit.xml"
+            sh([PY, "-m", "pytest", "-q", "-p", "no:cacheprovider", "--timeout=900", "--continue-on-collection-errors", f"--junitxml={junit2}"] + sorted(files), wt, env, timeout=3 * 3600)
+            still = []
+            seen = set()
+            if junit2.exists():
+                for tc in ET.parse(junit2).iter("testcase"):
+                    name = tc.get("classname") + "::" + tc.get("name")
+                    seen.add(name)
+                    if name in reg and any(ch.tag in ("failure", "error") for ch in tc):
+                        still.append(name)
+            reg = still + [x for x in reg if x not in seen]
+            res["pytest_scope"] = f"full suite over {xdist} workers; files with a failure run again in one process: {sorted(files)}"
         res["tests_run"] = n
         res["regressions_vs_baseline"] = reg
         res["confirmed"] = bool(res["demo_clean_rc"] == 0 and res["demo_patched_rc"] != 0 and res["compile_rc"] == 0 and n > 0 and not [x for x in reg if "test_hypotest_qmu_tilde[normal-50_bins]" not in x])
